@@ -40,7 +40,9 @@ type Server struct {
 	// answered; it may block (used to inject Close at a request).
 	OnRequest func(n int, path string)
 	Delay     time.Duration
-	blockers  []chan struct{}
+	// TransportErr is what the "neterr" fault returns (default: a plain error)
+	TransportErr error
+	blockers     []chan struct{}
 }
 
 // NewServer creates a server.
@@ -115,6 +117,9 @@ func (s *Server) RoundTrip(req *http.Request) (*http.Response, error) {
 	case "status500":
 		return mk(500, []byte("error")), nil
 	case "neterr":
+		if s.TransportErr != nil {
+			return nil, s.TransportErr
+		}
 		return nil, fmt.Errorf("injected transport error")
 	}
 	var body []byte
